@@ -30,7 +30,13 @@ inductive Val where
   | set (xs : List Val)
   | dict (kvs : List (DKey × Val))
   | enum (cls : Nat) (name : String)
+  | obj (kind : Nat) (repr : String)     -- a value of the registered type number `kind` (timedelta, UUID, Path ...), opaque
 deriving Repr, Inhabited
+
+/-- base type of a restricted type (`restricted_number_type` / `restricted_string_type`) -/
+inductive RBase where
+  | int | float | str
+deriving DecidableEq, Repr, Inhabited
 
 /-- members of a `Literal[...]` -/
 inductive Lit where
@@ -60,6 +66,8 @@ inductive Ty where
   | set (t : Ty)
   | literal (ls : List Lit)
   | enum (cls : Nat) (members : List String)
+  | rnum (base : RBase) (k : Nat)   -- restricted number / string type number `k` (PositiveInt, NotEmptyStr ...)
+  | reg (k : Nat)                   -- registered type number `k` (timedelta, range, bytes, UUID, complex, Path, Decimal ...)
 deriving Repr, Inhabited
 
 inductive Err where
@@ -80,6 +88,18 @@ structure Oracle where
   bigFlt : Int → Option String
   /-- `int(s)` for a dictionary key, `none` = ValueError -/
   intOf : String → Option Int
+  /-- `int(s)` / `float(s)` / — for the text given to a restricted number type, `none` = ValueError -/
+  numStr : RBase → String → Option Val := fun _ _ => .none
+  /-- the restriction of the restricted type `k` (comparisons / regular expression) on a value of its base type -/
+  rnumOk : Nat → Val → Bool := fun _ _ => false
+  /-- the serializer of a restricted type (its base type `int` / `float` / `str`) applied to a value that is NOT of
+      the base type (`int(0.5)`, `float(True)` ...), `none` = it raises -/
+  baseOf : RBase → Val → Option Val := fun _ _ => .none
+  /-- the deserializer of the registered type `k` applied to a value that is not of the type, `none` = ValueError
+      (`RegisteredType.deserializer` wraps ValueError / TypeError / AttributeError) -/
+  regDeser : Nat → Val → Option Val := fun _ _ => .none
+  /-- the serializer of the registered type `k`, `none` = it raises -/
+  regSer : Nat → Val → Option Val := fun _ _ => .none
 
 /-! ### Python `str.strip()` -/
 
@@ -161,6 +181,7 @@ def pyEq : Val → Val → Bool
   | .set xs, .set ys => pyEqList xs ys
   | .dict xs, .dict ys => pyEqKvs xs ys
   | .enum c n, .enum c' n' => c == c' && n == n'
+  | .obj k r, .obj k' r' => k == k' && r == r'
   | _, _ => false
 def pyEqList : List Val → List Val → Bool
   | [], [] => true
@@ -235,6 +256,12 @@ def confL (ll lk : Bool) : Ty → Val → Bool
   | .set t, v => match v with | .set xs => xs.all (fun x => confL ll lk t x) | _ => false
   | .literal ls, v => if ll then litLoose ls v else ls.any (fun l => l.same v)
   | .enum c ms, v => match v with | .enum c' n => c == c' && ms.contains n | _ => false
+  | .rnum b _, v => (match b, v with            -- the right base type (the restriction itself is C20's subject)
+      | .int, .int _ => true
+      | .float, .flt _ => true
+      | .str, .str _ => true
+      | _, _ => false)
+  | .reg k, v => match v with | .obj k' _ => k == k' | _ => false
 def confLAny (ll lk : Bool) : List Ty → Val → Bool
   | [], _ => false
   | t :: ts, v => confL ll lk t v || confLAny ll lk ts v
